@@ -308,6 +308,147 @@ theorem kwargs_ops (txAttrs : List String) (contained : Bool) (ops : List Op) (d
         have : k ≠ "parent" := fun e => by simp [h2 e] at hcont
         simp [h1, this]
 
+/-! ### any stores and deletions: which keys the constructor receives -/
+
+theorem mem_set {x k : String} {d : List String} : x ∈ set k d ↔ x ∈ d ∨ x = k := by
+  by_cases hm : k ∈ d
+  · rw [set_of_mem hm]
+    exact ⟨.inl, fun h => h.elim id (fun e => e ▸ hm)⟩
+  · rw [set_of_not_mem hm]; simp
+
+theorem nodup_set {k : String} {d : List String} (h : d.Nodup) : (set k d).Nodup := by
+  by_cases hm : k ∈ d
+  · rw [set_of_mem hm]; exact h
+  · rw [set_of_not_mem hm]
+    refine List.nodup_append.2 ⟨h, by simp, ?_⟩
+    intro a ha b hb
+    simp only [List.mem_singleton] at hb
+    subst hb
+    exact fun e => hm (e ▸ ha)
+
+theorem mem_del {x k : String} {d : List String} : x ∈ del k d ↔ x ∈ d ∧ x ≠ k := by
+  simp [del]
+
+theorem nodup_del {k : String} {d : List String} (h : d.Nodup) : (del k d).Nodup := h.filter _
+
+theorem mem_fold_set (ks d : List String) (x : String) :
+    x ∈ ks.foldl (fun d k => set k d) d ↔ x ∈ d ∨ x ∈ ks := by
+  induction ks generalizing d with
+  | nil => simp
+  | cons k ks ih =>
+    simp only [List.foldl_cons, ih, mem_set, List.mem_cons]
+    constructor
+    · rintro ((h | h) | h)
+      · exact .inl h
+      · exact .inr (.inl h)
+      · exact .inr (.inr h)
+    · rintro (h | h | h)
+      · exact .inl (.inl h)
+      · exact .inl (.inr h)
+      · exact .inr h
+
+theorem nodup_fold_set (ks d : List String) (h : d.Nodup) : (ks.foldl (fun d k => set k d) d).Nodup := by
+  induction ks generalizing d with
+  | nil => exact h
+  | cons k ks ih => exact ih _ (nodup_set h)
+
+theorem nodup_collected (txAttrs assigned extras : List String) (contained : Bool) :
+    (collected txAttrs assigned contained extras).Nodup := by
+  simp only [collected]
+  refine nodup_fold_set _ _ ?_
+  have h1 : (assigned.foldl (fun d k => set k d)
+      (set "_tx_position_end" (set "_tx_position" (txAttrs.foldl (fun d k => set k d) [])))).Nodup :=
+    nodup_fold_set _ _ (nodup_set (nodup_set (nodup_fold_set _ _ List.nodup_nil)))
+  split
+  · exact nodup_set h1
+  · exact h1
+
+theorem mem_collected_of (txAttrs assigned extras : List String) (contained : Bool) (k : String)
+    (h : k ∈ txAttrs ∨ (k = "parent" ∧ contained = true)) : k ∈ collected txAttrs assigned contained extras := by
+  simp only [collected]
+  rw [mem_fold_set]
+  refine .inl ?_
+  have h0 : k ∈ txAttrs → k ∈ assigned.foldl (fun d k => set k d)
+      (set "_tx_position_end" (set "_tx_position" (txAttrs.foldl (fun d k => set k d) []))) := by
+    intro hk
+    rw [mem_fold_set]
+    refine .inl ?_
+    rw [mem_set, mem_set, mem_fold_set]
+    exact .inl (.inl (.inr hk))
+  rcases h with h | ⟨h, hc⟩
+  · split
+    · rw [mem_set]; exact .inl (h0 h)
+    · exact h0 h
+  · rw [hc]
+    simp only [if_true]
+    rw [mem_set]; exact .inr h
+
+theorem mem_ops (x : String) (ops : List Op) (d : List String) (b : Bool) (hb : b = true ↔ x ∈ d) :
+    Op.alive x b ops = true ↔ x ∈ ops.foldl (fun d o => o.apply d) d := by
+  induction ops generalizing d b with
+  | nil => simpa [Op.alive] using hb
+  | cons o ops ih =>
+    simp only [Op.alive, List.foldl_cons] at ih ⊢
+    cases o with
+    | set k =>
+      refine ih _ _ ?_
+      simp only [Op.apply, mem_set, Bool.or_eq_true, beq_iff_eq, hb]
+      exact ⟨fun h => h.elim .inl (fun e => .inr e.symm), fun h => h.elim .inl (fun e => .inr e.symm)⟩
+    | del k =>
+      refine ih _ _ ?_
+      simp only [Op.apply, mem_del, Bool.and_eq_true, bne_iff_ne, ne_eq, hb]
+      exact ⟨fun h => ⟨h.1, fun e => h.2 e.symm⟩, fun h => ⟨h.1, fun e => h.2 e.symm⟩⟩
+
+theorem nodup_ops (ops : List Op) (d : List String) (h : d.Nodup) : (ops.foldl (fun d o => o.apply d) d).Nodup := by
+  induction ops generalizing d with
+  | nil => exact h
+  | cons o ops ih =>
+    simp only [List.foldl_cons]
+    cases o with
+    | set k => exact ih _ (nodup_set h)
+    | del k => exact ih _ (nodup_del h)
+
+/-- whatever user code stores on and deletes from the object (no assumption): the constructor receives no
+key twice, and exactly those of the rule's attributes (and `parent`, for a contained object) which user
+code has not deleted for good -/
+theorem kwargs_ops_general (txAttrs assigned extras : List String) (contained : Bool) (ops : List Op) :
+    (kwargs txAttrs contained (collectedOps txAttrs assigned contained extras ops)).Nodup ∧
+    ∀ k, k ∈ kwargs txAttrs contained (collectedOps txAttrs assigned contained extras ops) ↔
+      (k ∈ txAttrs ∨ (k = "parent" ∧ contained = true)) ∧ Op.alive k true ops = true := by
+  refine ⟨(nodup_ops ops _ (nodup_collected _ _ _ _)).filter _, fun k => ?_⟩
+  simp only [kwargs, collectedOps, List.mem_filter, Bool.or_eq_true, Bool.and_eq_true, List.contains_iff_mem,
+    beq_iff_eq]
+  constructor
+  · rintro ⟨hm, hk⟩
+    refine ⟨hk, ?_⟩
+    exact (mem_ops k ops _ true (by simpa using mem_collected_of txAttrs assigned extras contained k hk)).2 hm
+  · rintro ⟨hk, ha⟩
+    refine ⟨?_, hk⟩
+    exact (mem_ops k ops _ true (by simpa using mem_collected_of txAttrs assigned extras contained k hk)).1 ha
+
+/-- harmless operations keep everything the constructor is owed alive -/
+theorem alive_of_harmless (txAttrs : List String) (contained : Bool) (ops : List Op) (k : String) (b : Bool)
+    (hk : k ∈ txAttrs ∨ (k = "parent" ∧ contained = true)) (hb : b = true)
+    (ho : ∀ o, o ∈ ops → o.harmless txAttrs contained) : Op.alive k b ops = true := by
+  induction ops generalizing b with
+  | nil => simpa [Op.alive] using hb
+  | cons o ops ih =>
+    simp only [Op.alive, List.foldl_cons] at ih ⊢
+    refine ih _ ?_ (fun o' ho' => ho o' (by simp [ho']))
+    have hh := ho o (by simp)
+    cases o with
+    | set x => simp [hb]
+    | del x =>
+      have h1 : x ∉ txAttrs := hh.1
+      have h2 : x = "parent" → contained = false := hh.2
+      have : x ≠ k := by
+        intro e
+        subst e
+        rcases hk with hk | ⟨hk, hc⟩
+        · exact h1 hk
+        · rw [h2 hk] at hc; simp at hc
+      simp [hb, this]
+
 end Kw
 
 end LoadTree
